@@ -29,7 +29,7 @@ var c06Reps = map[val.Kind][]val.V{
 	val.KB:    {val.Bin("a"), val.Bin("b")},
 	val.KBOOL: {val.Bool(true), val.Bool(false)},
 	val.KNULL: {val.Null()},
-	val.KL:    {val.List(val.Str("a"), val.Num("1")), val.List(val.Str("b"))},
+	val.KL:    {val.List(val.Str("a"), val.Num("1")), val.List(val.Str("b")), val.List(val.Null(), val.Bool(true))},
 	val.KM:    {val.Map(map[string]val.V{"x": val.Str("a")}), val.Map(map[string]val.V{"x": val.Str("b"), "y": val.Num("1")})},
 	val.KSS:   {val.SS("a", "b"), val.SS("b")},
 	val.KNS:   {val.NS("1", "2"), val.NS("2")},
@@ -76,6 +76,15 @@ func c06Matrix() []c06Case {
 						out = append(out, c06Case{Cond: &refmodel.Cond{Op: "cmp", Cmp: cmp, Args: []refmodel.Operand{pathL, pathR}}, Item: mkItem(lv, rv), Values: val.Item{}, Tag: "cmp-pp"})
 						if rk != val.KAbsent {
 							out = append(out, c06Case{Cond: &refmodel.Cond{Op: "cmp", Cmp: cmp, Args: []refmodel.Operand{pathL, valR}}, Item: mkItem(lv, val.Absent()), Values: val.Item{":r": rv}, Tag: "cmp-pv"})
+						}
+						if cmp == "=" {
+							// the same operand pairs as members / bounds / second arguments given as PATHS
+							it := mkItem(lv, rv)
+							out = append(out, c06Case{Cond: &refmodel.Cond{Op: "in", Args: []refmodel.Operand{pathL, pathR}}, Item: it, Values: val.Item{}, Tag: "in-pp"})
+							out = append(out, c06Case{Cond: &refmodel.Cond{Op: "in", Args: []refmodel.Operand{pathL, valX, pathR}}, Item: it, Values: val.Item{":x": val.Str("nomatch")}, Tag: "in-pvp"})
+							out = append(out, c06Case{Cond: &refmodel.Cond{Op: "contains", Args: []refmodel.Operand{pathL, pathR}}, Item: it, Values: val.Item{}, Tag: "contains-pp"})
+							out = append(out, c06Case{Cond: &refmodel.Cond{Op: "begins", Args: []refmodel.Operand{pathL, pathR}}, Item: it, Values: val.Item{}, Tag: "begins-pp"})
+							out = append(out, c06Case{Cond: &refmodel.Cond{Op: "between", Args: []refmodel.Operand{pathL, pathR, pathR}}, Item: it, Values: val.Item{}, Tag: "between-ppp"})
 						}
 					}
 				}
